@@ -180,7 +180,17 @@ class FakeProcess:
 
     def start(self):
         # optionally the worker function itself raises at record k (decided by the scheduler; counts as the run's death)
-        self.batch_prios = [t[3] for t in self.args[0]]
+        # the worker's batch: the list of per-record tuples among the arguments; a record's input ordinal is read from its
+        # read name ("rd<k>") so that the harness does not depend on where the implementation keeps its priority counter
+        batch = next((a for a in self.args if isinstance(a, (list, tuple)) and a and isinstance(a[0], (list, tuple))), [])
+
+        def ordinal(t):
+            for x in t:
+                nm = getattr(x, "query_name", None)
+                if isinstance(nm, str) and nm.startswith("rd") and nm[2:].isdigit():
+                    return int(nm[2:])
+            return t[3]
+        self.batch_prios = [ordinal(t) for t in batch]
         crash_at = None
         if W.allow_exc and W.deaths < W.max_deaths and self.batch_prios:
             c = W.ch.choose(len(self.batch_prios) + 1)
@@ -190,7 +200,8 @@ class FakeProcess:
         q = RecQ(crash_at)
         self.crashed = False
         try:
-            self.target(self.args[0], q)     # the real wfa_alignment on this worker's batch
+            # the real wfa_alignment on this worker's batch, its queue argument replaced by the recording queue
+            self.target(*[q if isinstance(a, FakeQueue) else a for a in self.args])
         except InjectedCrash:
             self.crashed = True
         self.todo = q.items
